@@ -12,7 +12,8 @@ Import ListNotations.
 Open Scope Q_scope.
 
 Definition Qltb (a b : Q) : bool := negb (Qle_bool b a).
-Definition qsum (l : list Q) : Q := fold_right Qplus 0 l.
+(** sum of a list; reduced at every step only to keep evaluation cheap ([Qred q == q]) *)
+Definition qsum (l : list Q) : Q := fold_right (fun a acc => Qred (a + acc)) 0 l.
 Definition sq (x : Q) : Q := x * x.
 Definition ones {A} (l : list A) : list Q := map (fun _ => 1) l.
 
@@ -76,7 +77,14 @@ Definition wsq_idx (index : list nat) (xs : list Q) (alpha : Q) (ws : option (li
     let w := match ws with Some w => w | None => ones index end in
     if negb (length w =? length xs)%nat then None else
     let s := qsum w in
-    if Qeq_bool s 0 then None else                      (* nan weights: nothing found *)
+    if Qeq_bool s 0 then
+      (* all normalised weights are nan, so cum = [0, nan, .., nan, 1.0]: the only possible hit is
+         the single row of a one-element sample (cum = [0, 1.0]) *)
+      match index with
+      | [i] => if Qltb 0 alpha && Qle_bool alpha 1 then Some (nth i xs 0) else None
+      | _ => None
+      end
+    else
     let nw := map (fun v => Qred (v / s)) w in
     scan alpha 0 (map (fun i => (nth i xs 0, nth i nw 0)) index).
 
